@@ -65,4 +65,23 @@ PROPS = {
         assumptions=["X.509 path validation (crypto/x509) is an abstract verdict per credential class; crypto/tls admission per ClientAuth mode is a decision "
                      "model validated by the handshakes of this run", "client role without a CA file falls back to the host's system roots (documented behaviour, modelled as 'not the configured CA')"],
     ),
+    "C01": dict(
+        engine="TestC01",
+        lean_modules=["S2S.Props.C01"],
+        required_theorems=["C01_never_acks_unconfirmed", "C01_refuted_before_fix"],
+        rule=ROUTING_RULE + " Focus C01: 2-4 targets, prompt / lagging / silent targets (acks at the last high, at earlier highs, at ids inside a batch, "
+             "or never), gated (slow) targets; monitor: every upstream ack a vs every received task id < a confirmed by its owner target's own acks.",
+        assumptions=ROUTING_ASSUMPTIONS,
+        timeout={"quick": 1200, "thorough": 7200},
+    ),
+    "C04": dict(
+        engine="TestC04",
+        lean_modules=["S2S.Props.C04"],
+        required_theorems=["C04_refuted_target_break", "C04_refuted_source_restart", "C04_refuted", "C04_partial_fault_free"],
+        rule=ROUTING_RULE + " Focus C04: 1-4 faults per trace (target-stream break, source-stream break, reconnect immediately or late) at random op "
+             "boundaries, with gated targets so that queued and in-hand messages die with the stream; monitor: C01's statement with confirmation by any "
+             "incarnation; violations are attributed to a known finding only by the structural rule recorded in known_findings.json.",
+        assumptions=ROUTING_ASSUMPTIONS + ["after a source-stream restart the source resumes from the last acknowledgement it received"],
+        timeout={"quick": 1200, "thorough": 7200},
+    ),
 }
